@@ -6,7 +6,8 @@ import concurrent.futures, json, os, random, re, time
 import vf, advtrace
 
 HARNESS_PKGS = {
-    "internal/corerad": ["common/vf_util.go", "common/vf_ra.go", "corerad/vf_world.go", "corerad/vf_adv.go"],
+    "internal/corerad": ["common/vf_util.go", "common/vf_ra.go", "corerad/vf_world.go", "corerad/vf_adv.go",
+                         "corerad/vf_mdelay.go"],
     "internal/system": ["system/vf_export.go"],
 }
 
@@ -126,17 +127,60 @@ def run_scenarios(tmp, scenarios, tag, timeout=1800, nshards=None):
     outs = []
     # One compile first (warms the cache), then shards in parallel.
     def one(i):
-        inp = os.path.join(tmp, "%s-in-%d.ndjson" % (tag, i))
-        outp = os.path.join(tmp, "%s-out-%d.ndjson" % (tag, i))
-        vf.write_ndjson(inp, shards[i])
-        vf.go_test(HARNESS_PKGS, "internal/corerad", "^TestVF_Adv$", env={"VF_IN": inp, "VF_OUT": outp},
-                   timeout=timeout, tmp=vf.mktmp("vf-go-"))
-        return outp
-    first = one(0)
-    outs.append(first)
+        """Runs shard i; if the code under test crashes the process, the
+        scenario in progress is recorded as crashed and the rest is re-run."""
+        todo = shards[i]
+        parts = []
+        for attempt in range(4):
+            inp = os.path.join(tmp, "%s-in-%d-%d.ndjson" % (tag, i, attempt))
+            outp = os.path.join(tmp, "%s-out-%d-%d.ndjson" % (tag, i, attempt))
+            vf.write_ndjson(inp, todo)
+            try:
+                vf.go_test(HARNESS_PKGS, "internal/corerad", "^TestVF_Adv$", env={"VF_IN": inp, "VF_OUT": outp},
+                           timeout=timeout, tmp=vf.mktmp("vf-go-"))
+                parts.append(outp)
+                break
+            except vf.ProductCrash as c:
+                last = None
+                good = []
+                for line in open(outp, errors="replace"):
+                    try:
+                        e = json.loads(line)
+                    except ValueError:
+                        break
+                    good.append(e)
+                    if e.get("ev") == "reset":
+                        last = e["id"]
+                # keep complete scenarios, mark the one in progress as crashed
+                keep, cur = [], []
+                for e in good:
+                    if e["ev"] == "reset":
+                        cur = [e]
+                    else:
+                        cur.append(e)
+                    if e["ev"] == "end":
+                        keep += cur
+                        cur = []
+                msg = [l for l in c.out.splitlines() if l.startswith("panic:") or l.startswith("fatal error:")][:1]
+                if last is not None:
+                    head = [e for e in good if e.get("ev") == "reset" and e.get("id") == last][:1]
+                    keep += head + [{"ev": "panic", "seq": 0, "t": 0, "msg": (msg or ["crash"])[0]}, {"ev": "end", "id": last, "seq": 0, "t": 0}]
+                fixed = outp + ".fixed"
+                vf.write_ndjson(fixed, keep)
+                parts.append(fixed)
+                ids = [s["id"] for s in todo]
+                if last in ids:
+                    todo = todo[ids.index(last) + 1:]
+                else:
+                    todo = []
+                if not todo:
+                    break
+        return parts
+    outs += one(0)
     if nshards > 1:
         with concurrent.futures.ThreadPoolExecutor(max_workers=nshards) as ex:
-            outs += list(ex.map(one, range(1, nshards)))
+            for parts in ex.map(one, range(1, nshards)):
+                outs += parts
     return outs
 
 
